@@ -8,7 +8,7 @@
 From Coq Require Import List String NArith ZArith Bool.
 From Verif Require Import Base.Text Gen.GenPanicSites Model.Lexer Model.Literals Model.Analyzer Model.Decode
   Proofs.LexerTile Proofs.PanicInventory Proofs.LitProofs Proofs.AnalyzerProofs Proofs.Utf.
-From Verif Require Model.StParser Model.DeclParser Model.StInstance Proofs.StExprProofs Proofs.StStmtProofs Proofs.StInstanceProofs Proofs.DeclProofs Proofs.DeclInstanceProofs Proofs.LibProofs.
+From Verif Require Model.StParser Model.DeclParser Model.StInstance Proofs.StExprProofs Proofs.StStmtProofs Proofs.StInstanceProofs Proofs.DeclProofs Proofs.TypeProofs Proofs.DeclInstanceProofs Proofs.LibProofs.
 From Verif Require Import Gen.GenTokens.
 Import ListNotations.
 
@@ -65,3 +65,8 @@ Theorem C04_library_parser_fuel : forall (l : list LibProofs.swu) wend,
   Forall LibProofs.wf_wu l -> StExprProofs.all_triv token StInstance.tok_class wend ->
   StInstance.parse_lib_tokens (LibProofs.flat_lib l ++ wend) <> StInstance.O3Fuel.
 Proof. exact LibProofs.parse_lib_fuel. Qed.
+
+Theorem C04_types_parser_fuel : forall (l : list LibProofs.swe) wend,
+  Forall LibProofs.wf_we l -> StExprProofs.all_triv token StInstance.tok_class wend ->
+  StInstance.parse_lib2_tokens (LibProofs.flat_lib2 l ++ wend) <> StInstance.O4Fuel.
+Proof. exact LibProofs.parse_lib2_fuel. Qed.
